@@ -433,7 +433,9 @@ def extra_streams(ctx, hs):
 
 def replay(ctx, path):
     h = C.parse_replay(path)
-    harness = C.build_harness(ctx, "hash", SOURCES)
+    string_keys = any(l.startswith("cfg ") and l.split()[2] == "5" for l in h)     # history of the String-key stream
+    harness = C.build_harness(ctx, "hash_str" if string_keys else "hash", SOURCES,
+                              extra_flags=["-DKEY_STRING"] if string_keys else [])
     C.lake_build([DRIVER])
     diffs = C.differential(ctx, harness, C.driver_path(DRIVER), [h], reference, C.default_eq)
     for d in diffs:
